@@ -497,6 +497,12 @@ impl<'a> EbpfVmMbuff<'a> {
         self.jit.as_ref().map(|j| j.verif_code())
     }
 
+    /// Verification hook: (first-pass byte count, allocated buffer size) of the JIT-compiled program, if any.
+    #[cfg(all(rbpf_verif, not(windows)))]
+    pub fn verif_jit_sizing(&self) -> Option<(usize, usize)> {
+        self.jit.as_ref().map(|j| j.verif_sizing())
+    }
+
     /// JIT-compile the loaded program. No argument required for this.
     ///
     /// If using helper functions, be sure to register them into the VM before calling this
@@ -1129,6 +1135,12 @@ impl<'a> EbpfVmFixedMbuff<'a> {
         self.parent.verif_jit_code()
     }
 
+    /// Verification hook: (first-pass byte count, allocated buffer size) of the JIT-compiled program, if any.
+    #[cfg(all(rbpf_verif, not(windows)))]
+    pub fn verif_jit_sizing(&self) -> Option<(usize, usize)> {
+        self.parent.verif_jit_sizing()
+    }
+
     /// JIT-compile the loaded program. No argument required for this.
     ///
     /// If using helper functions, be sure to register them into the VM before calling this
@@ -1657,6 +1669,12 @@ impl<'a> EbpfVmRaw<'a> {
         self.parent.verif_jit_code()
     }
 
+    /// Verification hook: (first-pass byte count, allocated buffer size) of the JIT-compiled program, if any.
+    #[cfg(all(rbpf_verif, not(windows)))]
+    pub fn verif_jit_sizing(&self) -> Option<(usize, usize)> {
+        self.parent.verif_jit_sizing()
+    }
+
     /// JIT-compile the loaded program. No argument required for this.
     ///
     /// If using helper functions, be sure to register them into the VM before calling this
@@ -2089,6 +2107,12 @@ impl<'a> EbpfVmNoData<'a> {
     #[cfg(all(rbpf_verif, not(windows)))]
     pub fn verif_jit_code(&self) -> Option<&[u8]> {
         self.parent.verif_jit_code()
+    }
+
+    /// Verification hook: (first-pass byte count, allocated buffer size) of the JIT-compiled program, if any.
+    #[cfg(all(rbpf_verif, not(windows)))]
+    pub fn verif_jit_sizing(&self) -> Option<(usize, usize)> {
+        self.parent.verif_jit_sizing()
     }
 
     /// JIT-compile the loaded program. No argument required for this.
